@@ -367,8 +367,8 @@ def multi_sim_input(rng, nsims=None):
             t += solid_solution(rng, 1) + "USE solution %d\n" % src
         elif choice == "adv":
             cells = rng.randint(2, 4)
-            t += solution(rng, "0-%d" % cells, elements=["Na", "Cl", "K", "N(5)"])
-            have_sol.update(range(0, cells + 1))
+            t += solution(rng, "0-%d" % (cells + 1), elements=["Na", "Cl", "K", "N(5)"])
+            have_sol.update(range(0, cells + 2))
             t += transport_block(rng, cells)
         elif choice == "copy":
             dst = rng.randint(1, 8)
